@@ -49,6 +49,18 @@ def ser_mapper_newdict(node, data):
     return out
 
 
+def ser_mapper_guidkey(node, data):
+    # own schema: the id is stored under another key, the dict form's "data_id" key is not used
+    return {"guid": node.data.guid, "name": node.data.name, "falsy": isinstance(node.data, FalsyPerson)}
+
+
+def deser_mapper_guidkey(parent, item):
+    # "mapper may add item['data_id']" (Node.from_dict): the id travels back through the item
+    item["data_id"] = item["guid"]
+    cls = FalsyPerson if item.get("falsy") else Person
+    return cls(item["guid"], item["name"])
+
+
 class FalsyPerson(Person):
     """a legal data object that happens to be falsy"""
 
@@ -79,16 +91,19 @@ def run(case, rec):
                 n.remove()
     w = walk(tree)
     mapper = None
+    style = case.get("style", "newdict" if case.get("newdict") else "inplace")
     if flav == "obj":
-        mapper = ser_mapper_newdict if case.get("newdict") else ser_mapper
+        mapper = {"newdict": ser_mapper_newdict, "inplace": ser_mapper, "guidkey": ser_mapper_guidkey}[style]
 
     # ---- oracle 1: mirror -----------------------------------------------------------
     def exp_dict(n):
         d = {"data": str(n.data)}
         if n.data_id != hash(n.data):
             d["data_id"] = n.data_id
-        if flav == "obj":
-            if case.get("newdict"):
+        if flav == "obj" and style == "guidkey":
+            d = {"guid": n.data.guid, "name": n.data.name, "falsy": isinstance(n.data, FalsyPerson)}
+        elif flav == "obj":
+            if style == "newdict":
                 d = {"data": d["data"], "data_id": d.get("data_id"), "type": "person", "name": n.data.name}
             else:
                 d["type"] = "person"
@@ -118,15 +133,34 @@ def run(case, rec):
 
     # ---- oracle 2: round trip -----------------------------------------------------------
     obj = got
-    if case.get("json"):
-        obj = json.loads(json.dumps(got))
-        rec.cls("json-roundtrip")
     try:
-        t2 = Tree.from_dict(obj, mapper=deser_mapper) if flav == "obj" else Tree.from_dict(obj)
+        dumped = json.dumps(got)
+    except ValueError as e:
+        rec.fail("to_dict_list:not-json-serializable", repr(e))
+        return
+    if case.get("json"):
+        obj = json.loads(dumped)
+        rec.cls("json-roundtrip")
+    dmap = deser_mapper_guidkey if style == "guidkey" else deser_mapper
+    keep = json.loads(dumped) if style != "guidkey" else None  # what the structure looked like before from_dict
+    try:
+        t2 = Tree.from_dict(obj, mapper=dmap) if flav == "obj" else Tree.from_dict(obj)
     except Exception as e:  # noqa: BLE001
         rec.fail("from_dict:raises", repr(e))
         return
     rec.evals += 1
+    if keep is not None and json.loads(json.dumps(obj)) != keep:
+        rec.fail("from_dict:modified-the-structure-it-was-given", {"before": keep, "after": obj})
+        return
+    # the same structure can be used again
+    try:
+        t3 = Tree.from_dict(obj, mapper=dmap) if flav == "obj" else Tree.from_dict(obj)
+        if t3.count != t2.count:
+            rec.fail("from_dict:second-use-of-the-structure-differs", [t2.count, t3.count])
+            return
+    except Exception as e:  # noqa: BLE001
+        rec.fail("from_dict:second-use-raises", repr(e))
+        return
     w2 = walk(t2)
     if type(t2) is not Tree:
         rec.fail("from_dict:class", repr(type(t2)))
@@ -167,7 +201,7 @@ def hyp_cases(draw, tier):
     gen.fix_sibling_ids(spec)
     case = {"spec": spec, "flavour": flav, "json": draw(st.booleans())}
     if flav == "obj":
-        case["newdict"] = draw(st.booleans())
+        case["style"] = draw(st.sampled_from(["inplace", "newdict", "guidkey"]))
         case["falsy"] = draw(st.booleans())
     elif draw(st.sampled_from([0, 0, 1])):
         # a falsy explicit data_id (0) on one node
